@@ -310,3 +310,18 @@ where
         params: serde_json::to_value(&params).unwrap(),
     }
 }
+
+/// Verification hooks (only with `--cfg sqruff_verif`): reach the private request path.
+#[cfg(sqruff_verif)]
+impl LanguageServer {
+    /// `textDocument/formatting` as `main_loop` dispatches it: `on_request`, result as JSON.
+    pub fn verif_on_request(&mut self, id: i32, method: &str, params: Value) -> Option<Value> {
+        self.on_request(RequestId::from(id), method, params)
+            .map(|response| response.result.unwrap_or(Value::Null))
+    }
+
+    /// The private `format`, as the wasm front-end calls it.
+    pub fn verif_format(&mut self, uri: Uri) -> Vec<lsp_types::TextEdit> {
+        self.format(uri)
+    }
+}
